@@ -2,7 +2,7 @@
 import importlib
 
 CHECKS = {}
-for _mod in ("corechecks", "datachecks", "textchecks", "disasmchecks", "profilerchecks", "loaderchecks"):
+for _mod in ("corechecks", "datachecks", "textchecks", "disasmchecks", "profilerchecks", "loaderchecks", "kernelchecks", "sandboxchecks"):
     try:
         _m = importlib.import_module(_mod)
     except ModuleNotFoundError as e:
